@@ -6,10 +6,35 @@ import (
 
 func init() { register("C17", c17) }
 
-// c17 drives the real NNIRearranger the way cmd/nni.go does (Apply, check, write, Undo, check
-// inside the callback) and records the rearranged tree of every proposal, then the tree left
-// after the whole enumeration.
+// c17 drives the real NNIRearranger the way cmd/nni.go does: ONE rearranger value is created
+// before the loop over the trees of the input and reused for every tree; inside the callback
+// Apply, CheckTreePostOrder, write, Undo, CheckTreePostOrder.  The rearranged tree of every
+// proposal is recorded, then the tree left after the whole enumeration.
+//
+//	case ((tree T))            -> one observation
+//	case ((trees (T1 T2 ...))) -> ((runs (obs1 obs2 ...))), same rearranger value for all
 func c17(c *Sexp) *Sexp {
+	r := &tree.NNIRearranger{}
+	if ts := c.Get("trees"); ts != nil && ts.IsList {
+		// all trees are built first (as the reader goroutine of cmd/nni.go may have parsed
+		// several trees before the first one is rearranged)
+		trees := make([]*tree.Tree, 0, len(ts.List))
+		for _, s := range ts.List {
+			t, err := BuildTree(s)
+			if err != nil {
+				return L(KV("panic", A("build: "+err.Error())))
+			}
+			if err := t.ReinitIndexes(); err != nil {
+				return L(KV("panic", A("reinit: "+err.Error())))
+			}
+			trees = append(trees, t)
+		}
+		runs := L()
+		for _, t := range trees {
+			runs.List = append(runs.List, c17one(r, t))
+		}
+		return L(KV("runs", runs))
+	}
 	t, err := BuildTree(c.Get("tree"))
 	if err != nil {
 		return L(KV("panic", A("build: "+err.Error())))
@@ -17,6 +42,18 @@ func c17(c *Sexp) *Sexp {
 	if err := t.ReinitIndexes(); err != nil {
 		return L(KV("panic", A("reinit: "+err.Error())))
 	}
+	return c17one(r, t)
+}
+
+// c17one is the body of the loop `for t := range treechan` of cmd/nni.go.  A panic of the code
+// under test is recorded in the observation of this tree, the following trees still run with
+// the same rearranger value.
+func c17one(r *tree.NNIRearranger, t *tree.Tree) (obs *Sexp) {
+	defer func() {
+		if p := recover(); p != nil {
+			obs = L(KV("panic", A(c17panicStr(p))))
+		}
+	}()
 	orig, oaudit := ObserveTree(t)
 	if len(oaudit.List) != 0 {
 		return L(KV("panic", A("harness: the tree built fails the audit: "+oaudit.List[0].Atom)))
@@ -25,7 +62,6 @@ func c17(c *Sexp) *Sexp {
 
 	props := L()
 	var operr error
-	r := &tree.NNIRearranger{}
 	r.Rearrange(t, func(re tree.Rearrangement) bool {
 		if operr = re.Apply(); operr != nil {
 			return false
@@ -47,4 +83,14 @@ func c17(c *Sexp) *Sexp {
 	final, faudit := ObserveTree(t)
 	return L(KV("err", A(errStr(operr))), KV("n", I(len(props.List))), KV("orig", orig), KV("nw0", A(nw0)),
 		KV("props", props), KV("final", final), KV("audit", faudit), KV("nwf", A(t.Newick())))
+}
+
+func c17panicStr(p interface{}) string {
+	if e, ok := p.(error); ok {
+		return e.Error()
+	}
+	if s, ok := p.(string); ok {
+		return s
+	}
+	return "panic"
 }
